@@ -96,11 +96,11 @@ type HStats struct {
 	// successors compared with those of the first history (a check of the canonical state key itself)
 	AuditedStates, AuditTransitions, AuditMismatches int
 	AuditSamples                                     []string
-	Closure                                     bool
-	BudgetHit                                   bool
-	Outcomes                                    map[string]int
-	Samples                                     []string
-	PerDepth                                    []int
+	Closure                                          bool
+	BudgetHit                                        bool
+	Outcomes                                         map[string]int
+	Samples                                          []string
+	PerDepth                                         []int
 }
 
 // RunHistories explores d breadth-first to closure or maxDepth.
